@@ -10,7 +10,7 @@ def sh(cmd, **kw):
     return subprocess.run(cmd, shell=True, capture_output=True, text=True, **kw)
 
 def clean():
-    r = sh(f"git -C {REPO} status --porcelain --untracked-files=no")
+    r = sh(f"git -C {REPO} status --porcelain")
     return r.stdout.strip() == ""
 
 def run_check(cid):
@@ -46,7 +46,7 @@ def main():
                     code, lines, dt = run_check(cid)
                     results.append((f"revert {commit}", cid, f"exit {code} in {dt:.0f}s; " + (lines[0][:160] if lines else "no violation")))
             finally:
-                sh(f"git -C {REPO} checkout -- .")
+                sh(f"git -C {REPO} checkout -- . && git -C {REPO} clean -fdq -- src tests")
     if mode in ("seeded", "all"):
         for d in sorted(glob.glob("/verif/seeded/*/")):
             sid = os.path.basename(d.rstrip("/"))
@@ -63,7 +63,7 @@ def main():
                     code, lines, dt = run_check(cid)
                     results.append((f"seeded {sid}", cid, f"exit {code} in {dt:.0f}s; " + (lines[0][:160] if lines else "no violation")))
             finally:
-                sh(f"git -C {REPO} checkout -- .")
+                sh(f"git -C {REPO} checkout -- . && git -C {REPO} clean -fdq -- src tests")
     assert clean(), "/repo not restored!"
     for r in results:
         print(" | ".join(r))
